@@ -13,7 +13,7 @@ import (
 
 func init() {
 	Register(&Scenario{Prop: "C08", Name: "eventlog-windows", Run: scenC08, SoftParks: true, Weight: 1,
-		Rule: "1-3 writer replicas of one event log; 3-12 (thorough 3-30) Add (one in four a burst of 2-3 concurrent writers, parked at the write-path points or free-running under seeded yields) interleaved with replication under faults; after every quiescent step each replica's listing must only grow and keep relative order, respect causal order; at checkpoints (listing <= 14 entries) every combination of bound kind {none,gt,gte,lt,lte} x bound position x amount {unset,0,1,2,len-1,len,len+3,-1} is compared with the model window, and Get(hash) for every entry; non-trivial = >=3 entries and >=1 window check on a listing that contains entries of two writers or >=4 entries"})
+		Rule: "1-3 writer replicas of one event log; 3-12 (thorough 3-30) Add (one in four a burst of 2-3 concurrent writers, parked at the write-path points or free-running under seeded yields, with 0-2 concurrent List(-1) calls that must return everything listed before they started, in order) interleaved with replication under faults; after every quiescent step each replica's listing must only grow and keep relative order, respect causal order; at checkpoints (listing <= 14 entries) every combination of bound kind {none,gt,gte,lt,lte} x bound position x amount {unset,0,1,2,len-1,len,len+3,-1} is compared with the model window, and Get(hash) for every entry; non-trivial = >=3 entries and >=1 window check on a listing that contains entries of two writers or >=4 entries"})
 }
 
 func scenC08(k *K) {
@@ -72,7 +72,39 @@ func scenC08(k *K) {
 		node := k.C.Intn(n)
 		if k.C.Chance(1, 4) {
 			// concurrent local writers (and whatever replication is under way)
+			// 1-2 readers list the whole log while the writers are at work: whatever was listed
+			// before they started must be in their answer, in order
+			el := c.Stores[node].(iface.EventLogStore)
+			pre := LogHashSeq(el)
+			var readers []*Op
+			for r, m := 0, k.C.Range(0, 2); r < m; r++ {
+				readers = append(readers, k.Go(node, "list -1", func() (interface{}, error) {
+					all := -1
+					ops, err := el.List(context.Background(), &iface.StreamOptions{Amount: &all})
+					var hs []string
+					for _, o := range ops {
+						hs = append(hs, o.GetEntry().GetHash().String())
+					}
+					return hs, err
+				}))
+			}
 			c.WriteBurst(node, k.C.Range(2, 3), k.C.Chance(1, 2))
+			for _, r := range readers {
+				for j := 0; j < 50 && !k.IsDone(r); j++ {
+					k.Step()
+				}
+				if !k.IsDone(r) || r.Err != nil {
+					k.Failf("C08/list-error", "List(-1) concurrent with local writes: done=%v err=%v", k.IsDone(r), r.Err)
+				}
+				got := r.Val.([]string)
+				if !isSubsequence(pre, got) {
+					k.Failf("C08/window/concurrent-all", "List(-1) issued while %d entries were listed and local writes were under way returned %v: an entry listed before is missing or out of order (%v)", len(pre), c.names(got), c.names(pre))
+				}
+				if !isSubsequence(got, LogHashSeq(el)) {
+					k.Failf("C08/window/concurrent-all", "List(-1) concurrent with local writes returned %v, which is not in the order of the listing %v", c.names(got), LogNames(el))
+				}
+				k.W.Stat("list-concurrent-with-writes")
+			}
 			k.Steps(k.C.Intn(6))
 			continue
 		}
